@@ -261,7 +261,12 @@ Inductive xinstr :=
   | XLazyFlatten (l : nat) (sep : string)                           (* lazy.flatten_keys(sep): D73 — stacked copies *)
   (* conversions *)
   | XMemmap (r : nat)                                               (* td.memmap_() *)
-  | XShare (r : nat).                                               (* td.share_memory_() *)
+  | XShare (r : nat)                                                (* td.share_memory_() *)
+  (* lazy stacks, continued *)
+  | XLazyDense (l : nat) (cl : bool)                                (* lazy.contiguous() / densify() (cl = false), lazy.to_tensordict() (cl = true) *)
+  | XLazyNarrow (l : nat) (js : list nat) (nb : nat) (sels : list (list nat)).
+                                                                    (* lazy[a:b] on the stack dim, lazy.split(..)[k], lazy.chunk(..)[k]:
+                                                                       a stack of some of the SAME member objects (possibly one) *)
 
 Inductive xcls := XCBase (c : cls) | XCAlloc | XCInplace | XCView | XCCopy | XCConv.
 Definition xclassify (i : xinstr) : xcls :=
@@ -273,8 +278,8 @@ Definition xclassify (i : xinstr) : xcls :=
   (* lazy[idx] = td: a member addressed as a whole takes member.update(piece, inplace=True) — in place for the keys it has, binding
      for the others (the regular machine's CBest class) *)
   | XLazySetItem _ _ _ parts => if existsb pwhole parts then XCBase CBest else XCInplace
-  | XSubGet _ _ | XSubShallow _ | XSubSelect _ _ | XSubExclude _ _ | XLazyFlatten _ _ => XCView
-  | XSubClone _ | XSubUnary _ _ | XLazyGet _ _ | XLazyClone _ => XCCopy
+  | XSubGet _ _ | XSubShallow _ | XSubSelect _ _ | XSubExclude _ _ | XLazyFlatten _ _ | XLazyNarrow _ _ _ _ => XCView
+  | XSubClone _ | XSubUnary _ _ | XLazyGet _ _ | XLazyClone _ | XLazyDense _ _ => XCCopy
   | XMemmap _ | XShare _ => XCConv
   end.
 
@@ -341,6 +346,47 @@ Fixpoint lazy_flat_ents (h : heap) (L : lazyh) (sep : string) (ks : list path) :
           | Some (h2, es) => Some (h2, (join sep p, RLeaf v) :: es)
           | None => None
           end
+      end
+  end.
+
+(* contiguous() / to_tensordict() / densify() of a stack (_lazy.py contiguous 1635, base.py to_tensordict 11776): a new TensorDict whose
+   entries are the STACKED copies of the members' entries, key after key in the stack's (sorted) key order, nested stacks
+   recursively; to_tensordict clones the stacked copy once more.  A stack never is contiguous (is_contiguous() is False):
+   whatever the number of members, nothing in the result may share with a member *)
+Fixpoint dense_ents (rec : heap -> list nat -> option (heap * nat)) (cl : bool) (h : heap) (L : lazyh) (ms : list nat)
+  (ks : list string) : option (heap * list (string * ref)) :=
+  match ks with
+  | [] => Some (h, [])
+  | k :: t =>
+      match all_some (map (member_leaf h [k]) ms) with
+      | Some vs =>
+          let '(h1, v) := lazy_stack_leaf h L vs in
+          let '(h2, v2) := (if cl then fresh_like h1 v (read h1 v) else (h1, v)) in
+          match dense_ents rec cl h2 L ms t with
+          | Some (h3, es) => Some (h3, (k, RLeaf v2) :: es)
+          | None => None
+          end
+      | None =>
+          match all_some (map (member_node h [k]) ms) with
+          | Some ns =>
+              match rec h ns with
+              | Some (h1, n) => match dense_ents rec cl h1 L ms t with
+                                | Some (h2, es) => Some (h2, (k, RNode n) :: es)
+                                | None => None
+                                end
+              | None => None
+              end
+          | None => None
+          end
+      end
+  end.
+Fixpoint lazy_dense (fuel : nat) (cl : bool) (h : heap) (L : lazyh) (ms : list nat) : option (heap * nat) :=
+  match fuel with
+  | 0 => None
+  | S f =>
+      match dense_ents (fun h' ns => lazy_dense f cl h' L ns) cl h L ms (lazy_keys h ms) with
+      | Some (h1, es) => Some (alloc_node h1 (mkNode es false))
+      | None => None
       end
   end.
 
@@ -620,6 +666,23 @@ Definition xstep (s : xst) (i : xinstr) : xst * outcome :=
       match reg (xb s) r with
       | Some d => let '(b', o) := step (xb s) (ILock r true) in (mkX b' (xsubs s) (xlazy s), o)
       | None => fail EType
+      end
+  | XLazyDense li cl =>
+      match xlz s li with
+      | None => fail EType
+      | Some L => match lazy_dense (fuel_of h) cl h L (lmem L) with
+                  | Some (h1, m) => (xpush s h1 (RNode m), Done)
+                  | None => fail EFuel
+                  end
+      end
+  | XLazyNarrow li js nb sels =>
+      match xlz s li with
+      | None => fail EType
+      | Some L => match all_some (map (nth_error (lmem L)) js) with
+                  | Some ns => if Nat.eqb (List.length ns) (List.length sels) then (xpush_lazy s h (mkLazy ns nb sels), Done)
+                               else fail EShape
+                  | None => fail EKey
+                  end
       end
   end.
 
